@@ -2,8 +2,10 @@
 sensitivity of the checks. Each mutant is a list of (file, old text, new text) replacements that
 is applied to a scratch worktree of /repo, never to /repo itself.
 
-expect: "caught"   the named checks must report a violation
-        "quiet"    negative control: the property still holds, the checks must stay silent
+expect: "caught"    the named checks must report a violation
+        "quiet"     negative control: the property still holds, the checks must stay silent
+        "undecided" the edit makes the compiler reject (most of) the workload in every order alike:
+                    C20 holds vacuously, and the check must say that it cannot decide (exit 2)
 """
 
 TOPO = "crates/topo/src/lib.rs"
@@ -86,7 +88,7 @@ MUTANTS = [
          edits=[(GLOBALS, """                let old_bodies =
                     std::mem::replace(&mut self.bodies, &self.world_bodies[naive.file()]);""",
                  """                let old_bodies = self.bodies;""")]),
-    dict(id="c20-cyclic-sort-reversed", checks=["C20"], expect="caught",
+    dict(id="c20-cyclic-sort-reversed", checks=["C20"], expect="undecided",
          note="cyclic lambdas run before cyclic globals",
          edits=[(HIRTY, """                        (ConcreteLoc::Global(_), ConcreteLoc::Lambda(_)) => {
                             std::cmp::Ordering::Less
@@ -99,7 +101,7 @@ MUTANTS = [
                         (ConcreteLoc::Lambda(_), ConcreteLoc::Global(_)) => {
                             std::cmp::Ordering::Less
                         }""")]),
-    dict(id="c20-stale-signature-on-restart", checks=["C20"], expect="caught",
+    dict(id="c20-stale-signature-on-restart", checks=["C20"], expect="undecided",
          note="a global that yields keeps its NotYetResolved placeholder signature",
          edits=[(HIRTY, """            Err(why) => {
                 global_ctx.tys.signatures.remove(&global.wrap());
